@@ -100,6 +100,10 @@ def instantiations(tier, seed):
               F.N("All", F.AM(0, F.a(), F.b(), id="B"), F.N("Not", F.AM(1, F.c(), F.d(), id="C")), id="A"),
               F.N("Imply", F.AM(2, F.a(), F.b(), F.c(), id="B"), F.AL(1, F.c(), F.d(), id="C", sign=None), id="A"),
               F.N("Any", F.N("Not", F.AL(2, F.a(), F.b(), id="B", sign=None)), F.AM(0, F.c(), id="C"), id="A")]
+    basics += [F.N("Not", F.AL(3, F.N("Any", F.a(), F.b()), F.N("Any", F.c(), F.d()), id="B", sign=None)),
+               F.N("Imply", F.AL(2, F.N("All", F.a(), F.b()), F.N("Any", F.c(), F.d()), id="B", sign=None), F.a(), id="A"),
+               F.N("Not", F.N("XNor", F.N("All", F.a(), F.b()))), F.N("Imply", F.N("XNor", F.N("Any", F.a(), F.b())), F.c()),
+               F.N("Not", F.N("Not", F.AL(1, F.N("Any", F.a(), F.b()), id="B", sign=None)))]
     routed = [(sk, how) for sk in basics for how in ("ctor", "json", "ctor-str")]
     routed += [(sk, ["ctor", "json", "ctor-str"][k % 3]) for k, sk in enumerate(skels)]
     for k, (sk, how) in enumerate(routed):
@@ -213,7 +217,7 @@ def run_inst(spec, run):
         run.validate(ctx, conc, lambda m: {"val": [S.model_int(m, val.lower), S.model_int(m, val.upper)]}, known=kn)
         run.sample({"model": pl.show(model_spec), "how": how, "path_condition": [str(z3.simplify(c)) for c in ctx.pc][:6]})
 
-    st = S.explore(fn, on_path, max_paths=6000, wall=900)
+    st = S.explore(fn, on_path, max_paths=30000, wall=2400)
     return run.result(st)
 
 
